@@ -338,5 +338,17 @@ def run(ck):
     f = P.func(f"{PV}.PusVerificator.remove_entry")
     src = ast.unparse(f.node)
     dels = [n_ for n_ in ast.walk(f.node) if isinstance(n_, ast.Delete)]
-    ok = len(dels) == 1 and ast.unparse(dels[0]) == "del self._verif_dict[req_id]" and "if req_id in self._verif_dict:" in src and src.rstrip().endswith("return False")
-    ck.verdict("D-TABLE", "PusVerificator.remove_entry", "deletes only its own key, only when present, and reports whether it did", [] if ok else [src[-120:]], "single guarded del")
+    one_del = len(dels) == 1 and ast.unparse(dels[0]) == "del self._verif_dict[req_id]"
+    guarded = one_del and "if req_id in self._verif_dict:" in src and src.rstrip().endswith("return False")
+    # or: try: del ...; except KeyError: return False; [else:] return True
+    tries = [n_ for n_ in ast.walk(f.node) if isinstance(n_, ast.Try)]
+    tried = one_del and len(tries) == 1 and any(ast.unparse(h_.type) == "KeyError" and ast.unparse(h_.body[-1]) == "return False" for h_ in tries[0].handlers if h_.type is not None) \
+        and any(n_ is dels[0] for n_ in ast.walk(ast.Module(body=tries[0].body, type_ignores=[]))) and "return True" in src
+    pops = ".pop(req_id" in src
+    what = "deletes only its own key, only when present, and reports whether it did"
+    if guarded or tried:
+        ck.proved("D-TABLE", "PusVerificator.remove_entry", what, "single del, guarded by membership" if guarded else "single del in try / except KeyError")
+    elif not one_del and not pops:
+        ck.refuted("D-TABLE", "PusVerificator.remove_entry", what, f"{len(dels)} del statements: {src[-120:]}")
+    else:
+        ck.unknown("D-TABLE", "PusVerificator.remove_entry", what, f"form not recognised: {src[-120:]}")
